@@ -339,6 +339,11 @@ def main(tier, seed, replay=None):
             if nf <= 2:
                 ck.fail(f'schedule {case["policy"]["kind"]} (seed {case["seed"]}): {r["errs"][0][0]}: {r["errs"][0][1]}',
                         {'kind': 'schedule', 'case': case, 'errors': r['errs'], 'trace_tail': r.get('trace_tail'), 'choices': r.get('choices')}, 'C04:schedule')
+    try:
+        import lookupcorr
+        lookupcorr.run(ck, tier, ncont=4 if tier == 'quick' else 30)   # ties Lookup.lookup_bulk (C04_bulk_reader_under_concurrency) to the generator
+    except Exception as e:
+        ck.obligation('lookup-generator correspondence executed', False, f'{type(e).__name__}: {e}', kind='correspondence')
     ck.cov['gated_events'] = events
     ck.cov['schedules'] = len(cases)
     ck.cov['reader_loose_opens'] = fallbacks
